@@ -101,7 +101,8 @@ const (
 	nsLabel = "verif=watch"
 )
 
-var namespaces = []string{"ns-a", "ns-b"}
+// ns-a and ns-c hold resources (two sets of informers); ns-b is empty and comes and goes
+var namespaces = []string{"ns-a", "ns-c", "ns-b"}
 
 func main() {
 	repo := flag.String("repo", "/repo", "repository root (templates are read from it)")
@@ -161,7 +162,7 @@ func run(repo string, c *Case, iter int) {
 	cnf := configs.NewConfigurator(configs.ConfiguratorParams{
 		NginxManager: manager, StaticCfgParams: static, Config: configs.NewDefaultConfigParams(ctx, true),
 		MGMTCfgParams: configs.NewDefaultMGMTConfigParams(ctx), TemplateExecutor: te, TemplateExecutorV2: te2,
-		LabelUpdater: nopLabels{}, IsPlus: true, IsPrometheusEnabled: true,
+		LabelUpdater: nopLabels{}, LatencyCollector: collectors.NewLatencyFakeCollector(), IsPlus: true, IsPrometheusEnabled: true,
 		IsDynamicWeightChangesReloadEnabled: true, NginxVersion: nginxVersion,
 	})
 
@@ -169,15 +170,13 @@ func run(repo string, c *Case, iter int) {
 	conf := conffake.NewSimpleClientset()
 	pod := &api_v1.Pod{ObjectMeta: meta_v1.ObjectMeta{Name: "verif-pod", Namespace: ctrlNS}}
 	kube.CoreV1().Pods(ctrlNS).Create(ctx, pod, meta_v1.CreateOptions{})
-	kube.CoreV1().ConfigMaps(ctrlNS).Create(ctx, &api_v1.ConfigMap{ObjectMeta: meta_v1.ObjectMeta{Name: "nginx-config", Namespace: ctrlNS},
-		Data: map[string]string{"proxy-connect-timeout": "10s"}}, meta_v1.CreateOptions{})
 
 	lbc := k8s.NewLoadBalancerController(k8s.NewLoadBalancerControllerInput{
 		KubeClient: kube, ConfClient: conf, Recorder: &record.FakeRecorder{}, ResyncPeriod: 30 * time.Second,
 		LoggerContext: ctx, Namespace: []string{""}, SecretNamespace: []string{""}, NginxConfigurator: cnf,
 		IsNginxPlus: true, IngressClass: class, ControllerNamespace: ctrlNS, Pod: pod,
 		ReportIngressStatus: true, IsLeaderElectionEnabled: true, LeaderElectionLockName: "verif-leader",
-		ConfigMaps: ctrlNS + "/nginx-config", AreCustomResourcesEnabled: true,
+		AreCustomResourcesEnabled: true,
 		MetricsCollector:             collectors.NewControllerFakeCollector(),
 		GlobalConfigurationValidator: validation.NewGlobalConfigurationValidator(map[int]bool{}),
 		TransportServerValidator:     validation.NewTransportServerValidator(true, false, true),
@@ -187,9 +186,12 @@ func run(repo string, c *Case, iter int) {
 	})
 
 	certPEM, keyPEM := makeCert()
-	d := &driver{ctx: ctx, kube: kube, conf: conf, rng: rng, c: c, cert: certPEM, key: keyPEM}
+	d := &driver{ctx: ctx, kube: kube, conf: conf, rng: rng, c: c, cert: certPEM, key: keyPEM, lbc: lbc, nsB: true}
 	for _, ns := range namespaces {
 		d.nsCreate(ns)
+		if ns == "ns-b" {
+			continue
+		}
 		for _, s := range []string{"svc1", "svc2"} {
 			kube.CoreV1().Services(ns).Create(ctx, &api_v1.Service{ObjectMeta: meta_v1.ObjectMeta{Name: s, Namespace: ns},
 				Spec: api_v1.ServiceSpec{Ports: []api_v1.ServicePort{{Port: 80}, {Port: 443, Name: "tls"}}}}, meta_v1.CreateOptions{})
@@ -206,6 +208,8 @@ func run(repo string, c *Case, iter int) {
 	d.vsrUpsert("ns-a", 0, false)
 	d.tsUpsert("ns-a", 0)
 	d.mergeable("ns-a", 0)
+	d.vsUpsert("ns-c", 0)
+	d.vsrUpsert("ns-c", 0, false)
 	time.Sleep(800 * time.Millisecond)
 
 	var stop atomic.Bool
@@ -243,7 +247,7 @@ func run(repo string, c *Case, iter int) {
 		k := k
 		observer("service-insight", time.Millisecond, func() {
 			req := httptest.NewRequest("GET", "/probe/x", nil)
-			req.SetPathValue("hostname", fmt.Sprintf("vs%d.example.com", k))
+			req.SetPathValue("hostname", fmt.Sprintf("vs%d.ns-a.example.com", k))
 			hs.UpstreamStats(httptest.NewRecorder(), req)
 			req2 := httptest.NewRequest("GET", "/probe/ts/x", nil)
 			req2.SetPathValue("name", "svc1")
@@ -295,9 +299,19 @@ type driver struct {
 	c         *Case
 	cert, key []byte
 	gen       int
+	lbc       *k8s.LoadBalancerController
+	nsB       bool
 }
 
 func (d *driver) op(k string) { d.c.Ops[k]++ }
+
+// meta plays the API server: a stable UID per (kind, namespace, name) and a fresh
+// metadata.generation for every spec the driver writes
+func (d *driver) meta(kind, ns, name string, ann map[string]string) meta_v1.ObjectMeta {
+	d.gen++
+	return meta_v1.ObjectMeta{Name: name, Namespace: ns, Annotations: ann, Generation: int64(d.gen),
+		UID: types.UID(kind + "-" + ns + "-" + name)}
+}
 
 func (d *driver) nsCreate(ns string) {
 	d.op("ns-create")
@@ -334,8 +348,8 @@ func upstreams() []conf_v1.Upstream {
 }
 
 func (d *driver) vs(ns string, i, w int, extra bool) *conf_v1.VirtualServer {
-	v := &conf_v1.VirtualServer{ObjectMeta: meta_v1.ObjectMeta{Name: fmt.Sprintf("vs%d", i), Namespace: ns},
-		Spec: conf_v1.VirtualServerSpec{IngressClass: class, Host: fmt.Sprintf("vs%d.example.com", i),
+	v := &conf_v1.VirtualServer{ObjectMeta: d.meta("vs", ns, fmt.Sprintf("vs%d", i), nil),
+		Spec: conf_v1.VirtualServerSpec{IngressClass: class, Host: fmt.Sprintf("vs%d.%s.example.com", i, ns),
 			TLS: &conf_v1.TLS{Secret: "tls-0"}, Upstreams: upstreams(),
 			Routes: []conf_v1.Route{{Path: "/", Splits: splits(w)}}}}
 	if i == 0 {
@@ -364,6 +378,8 @@ func (d *driver) vsWeights(ns string, i int) {
 	d.op("vs-weights")
 	n := cur.DeepCopy()
 	n.Spec.Routes[0].Splits = splits(10 + d.rng.Intn(80))
+	d.gen++
+	n.Generation = int64(d.gen)
 	d.conf.K8sV1().VirtualServers(ns).Update(d.ctx, n, meta_v1.UpdateOptions{})
 }
 
@@ -373,8 +389,8 @@ func (d *driver) vsDelete(ns string, i int) {
 }
 
 func (d *driver) vsr(ns string, i, w int, invalid bool) *conf_v1.VirtualServerRoute {
-	r := &conf_v1.VirtualServerRoute{ObjectMeta: meta_v1.ObjectMeta{Name: fmt.Sprintf("vsr%d", i), Namespace: ns},
-		Spec: conf_v1.VirtualServerRouteSpec{IngressClass: class, Host: fmt.Sprintf("vs%d.example.com", i), Upstreams: upstreams(),
+	r := &conf_v1.VirtualServerRoute{ObjectMeta: d.meta("vsr", ns, fmt.Sprintf("vsr%d", i), nil),
+		Spec: conf_v1.VirtualServerRouteSpec{IngressClass: class, Host: fmt.Sprintf("vs%d.%s.example.com", i, ns), Upstreams: upstreams(),
 			Subroutes: []conf_v1.Route{{Path: "/r", Splits: splits(w)}}}}
 	if invalid {
 		r.Status.State = conf_v1.StateInvalid
@@ -414,6 +430,8 @@ func (d *driver) vsrWeights(ns string, i int, markInvalid bool) {
 	d.op("vsr-weights")
 	n := cur.DeepCopy()
 	n.Spec.Subroutes[0].Splits = splits(10 + d.rng.Intn(80))
+	d.gen++
+	n.Generation = int64(d.gen)
 	d.conf.K8sV1().VirtualServerRoutes(ns).Update(d.ctx, n, meta_v1.UpdateOptions{})
 }
 
@@ -429,7 +447,7 @@ func (d *driver) ing(ns, name, host string, ann map[string]string, paths []strin
 	if len(hp) > 0 {
 		rule.IngressRuleValue = networking.IngressRuleValue{HTTP: &networking.HTTPIngressRuleValue{Paths: hp}}
 	}
-	return &networking.Ingress{ObjectMeta: meta_v1.ObjectMeta{Name: name, Namespace: ns, Annotations: ann},
+	return &networking.Ingress{ObjectMeta: d.meta("ing", ns, name, ann),
 		Spec: networking.IngressSpec{IngressClassName: &cls, Rules: []networking.IngressRule{rule}}}
 }
 
@@ -445,7 +463,7 @@ func (d *driver) ingUpsert(ns string, i int) {
 	if d.rng.Bool() {
 		paths = append(paths, "/b")
 	}
-	d.ingPut(d.ing(ns, fmt.Sprintf("ing%d", i), fmt.Sprintf("ing%d.example.com", i),
+	d.ingPut(d.ing(ns, fmt.Sprintf("ing%d", i), fmt.Sprintf("ing%d.%s.example.com", i, ns),
 		map[string]string{"nginx.org/proxy-connect-timeout": fmt.Sprintf("%ds", 1+d.rng.Intn(50))}, paths))
 }
 
@@ -456,7 +474,7 @@ func (d *driver) ingDelete(ns string, i int) {
 
 func (d *driver) mergeable(ns string, i int) {
 	d.op("mergeable-upsert")
-	host := fmt.Sprintf("merge%d.example.com", i)
+	host := fmt.Sprintf("merge%d.%s.example.com", i, ns)
 	d.ingPut(d.ing(ns, fmt.Sprintf("master%d", i), host, map[string]string{"nginx.org/mergeable-ingress-type": "master",
 		"nginx.org/proxy-read-timeout": fmt.Sprintf("%ds", 1+d.rng.Intn(50))}, nil))
 	d.ingPut(d.ing(ns, fmt.Sprintf("minion%d", i), host, map[string]string{"nginx.org/mergeable-ingress-type": "minion",
@@ -470,9 +488,9 @@ func (d *driver) minionDelete(ns string, i int) {
 
 func (d *driver) tsUpsert(ns string, i int) {
 	d.op("ts-upsert")
-	t := &conf_v1.TransportServer{ObjectMeta: meta_v1.ObjectMeta{Name: fmt.Sprintf("ts%d", i), Namespace: ns},
+	t := &conf_v1.TransportServer{ObjectMeta: d.meta("ts", ns, fmt.Sprintf("ts%d", i), nil),
 		Spec: conf_v1.TransportServerSpec{IngressClass: class, Listener: conf_v1.TransportServerListener{Name: "tls-passthrough", Protocol: "TLS_PASSTHROUGH"},
-			Host:      fmt.Sprintf("ts%d.example.com", i),
+			Host:      fmt.Sprintf("ts%d.%s.example.com", i, ns),
 			Upstreams: []conf_v1.TransportServerUpstream{{Name: "tsu", Service: "svc1", Port: 443, MaxFails: intp(1 + d.rng.Intn(5))}},
 			Action:    &conf_v1.TransportServerAction{Pass: "tsu"}}}
 	if _, err := d.conf.K8sV1().TransportServers(ns).Update(d.ctx, t, meta_v1.UpdateOptions{}); err != nil {
@@ -487,16 +505,21 @@ func (d *driver) tsDelete(ns string, i int) {
 	d.conf.K8sV1().TransportServers(ns).Delete(d.ctx, fmt.Sprintf("ts%d", i), meta_v1.DeleteOptions{})
 }
 
+// The ConfigMap informer is built on CoreV1().RESTClient(), which the fake clientset does not have,
+// so it cannot run here; the only thing its handlers do is lbc.AddSyncQueue(configMap), which the
+// driver does in their place.  The worker then runs the production syncConfigMap -> updateAllConfigs.
 func (d *driver) configMap() {
 	d.op("configmap-update")
-	d.kube.CoreV1().ConfigMaps(ctrlNS).Update(d.ctx, &api_v1.ConfigMap{ObjectMeta: meta_v1.ObjectMeta{Name: "nginx-config", Namespace: ctrlNS},
-		Data: map[string]string{"proxy-connect-timeout": fmt.Sprintf("%ds", 1+d.rng.Intn(50))}}, meta_v1.UpdateOptions{})
+	d.lbc.AddSyncQueue(&api_v1.ConfigMap{ObjectMeta: meta_v1.ObjectMeta{Name: "nginx-config", Namespace: ctrlNS},
+		Data: map[string]string{"proxy-connect-timeout": fmt.Sprintf("%ds", 1+d.rng.Intn(50))}})
 }
 
 func (d *driver) step() {
+	// all resources live in ns-a; ns-b only comes and goes (an API server empties a namespace before
+	// it deletes it, so the controller never sees resources of a namespace it stopped watching)
 	ns := "ns-a"
-	if d.rng.Chance(1, 5) {
-		ns = "ns-b"
+	if d.rng.Chance(1, 3) {
+		ns = "ns-c"
 	}
 	i := d.rng.Intn(3)
 	switch d.rng.Intn(20) {
@@ -535,11 +558,12 @@ func (d *driver) step() {
 	case 17:
 		d.configMap()
 	case 18:
-		if d.rng.Bool() {
+		if d.nsB {
 			d.nsDelete("ns-b")
 		} else {
 			d.nsCreate("ns-b")
 		}
+		d.nsB = !d.nsB
 	case 19:
 		d.vsUpsert(ns, i)
 	}
